@@ -2,7 +2,8 @@
    datatype. Mirrors command/{model,parse,help,autocomplete}.rs and group/mod.rs. *)
 From EC Require Import Base Generated.Codes Model.Utils Model.Args Model.Writer Model.Cli.
 
-Inductive aty := TStr | TU8 | TBool | TChar | TInt (signed : bool) (bits : N).   (* TInt: i8 u16 i16 u32 i32 ... *)
+Inductive aty := TStr | TU8 | TBool | TChar | TInt (signed : bool) (bits : N)   (* TInt: i8 u16 i16 u32 i32 ... u128 i128 *)
+  | TSize (signed : bool).                                                   (* usize / isize on the 64-bit host the harness runs on *)
 Inductive value := VStr (s : list N) | VNum (n : N) | VBool (b : bool) | VChr (c : N) | VInt (neg : bool) (n : N).
 Inductive akind := KPos | KOpt (long : option (list N)) (short : option N) | KFlag (long : option (list N)) (short : option N).
 Inductive adefault := DNone | DStr (s : list N) | DVal (v : value).
@@ -34,6 +35,22 @@ Fixpoint parse_dec (acc : N) (bs : list N) : option N :=
   | [] => Some acc
   | b :: r => if digit b then parse_dec (acc * 10 + (b - 48)) r else None
   end.
+(* core::num from_str_radix(10): one optional sign (`-` only for signed types), at least one digit, digits only, range checked *)
+Definition conv_int (sg : bool) (bits : N) (s : list N) : option value :=
+    let '(neg, ds) := match s with
+                      | 43 :: r => (false, r)
+                      | 45 :: r => if sg then (true, r) else (false, s)
+                      | _ => (false, s)
+                      end in
+    match ds with
+    | [] => None
+    | _ => match parse_dec 0 ds with
+           | None => None
+           | Some n =>
+             if neg then (if n <=? 2 ^ (bits - 1) then Some (VInt (negb (n =? 0)) n) else None)
+             else if n <? (if sg then 2 ^ (bits - 1) else 2 ^ bits) then Some (VInt false n) else None
+           end
+    end.
 Definition conv (t : aty) (s : list N) : option value :=
   match t with
   | TStr => Some (VStr s)
@@ -52,22 +69,8 @@ Definition conv (t : aty) (s : list N) : option value :=
              | Some (Some (c, [])) => Some (VChr c)
              | _ => None
              end
-  | TInt sg bits =>
-    (* core::num from_str_radix(10): one optional sign (`-` only for signed types), at least one digit, digits only, range checked *)
-    let '(neg, ds) := match s with
-                      | 43 :: r => (false, r)
-                      | 45 :: r => if sg then (true, r) else (false, s)
-                      | _ => (false, s)
-                      end in
-    match ds with
-    | [] => None
-    | _ => match parse_dec 0 ds with
-           | None => None
-           | Some n =>
-             if neg then (if n <=? 2 ^ (bits - 1) then Some (VInt (negb (n =? 0)) n) else None)
-             else if n <? (if sg then 2 ^ (bits - 1) else 2 ^ bits) then Some (VInt false n) else None
-           end
-    end
+  | TInt sg bits => conv_int sg bits s
+  | TSize sg => conv_int sg 64 s
   end.
 Fixpoint dec_digits (fuel : nat) (n : N) (acc : list N) : list N :=
   match fuel with
@@ -76,9 +79,10 @@ Fixpoint dec_digits (fuel : nat) (n : N) (acc : list N) : list N :=
   end.
 Definition ty_name (t : aty) : list N :=
   match t with TStr => [38;115;116;114] | TU8 => [117;56] | TBool => [98;111;111;108] | TChar => [99;104;97;114]
-  | TInt sg bits => (if sg then 105 else 117) :: dec_digits 4 bits [] end.
+  | TInt sg bits => (if sg then 105 else 117) :: dec_digits 4 bits []
+  | TSize sg => (if sg then 105 else 117) :: [115;105;122;101] end.
 Definition ty_default (t : aty) : value :=
-  match t with TStr => VStr [] | TU8 => VNum 0 | TBool => VBool false | TChar => VChr 0 | TInt _ _ => VInt false 0 end.
+  match t with TStr => VStr [] | TU8 => VNum 0 | TBool => VBool false | TChar => VChr 0 | TInt _ _ => VInt false 0 | TSize _ => VInt false 0 end.
 
 (* ---- names used in usage / errors (CommandArg::full_name) *)
 Definition opt_prefix (long : option (list N)) (short : option N) : list N :=
